@@ -222,13 +222,18 @@ BANK_MENU = [
     ("SRSDB sp!,#abt", 0xF96D0517), ("STMDB sp!,{r8,r12,lr}", 0xE92D5100), ("LDMIA sp!,{r8,r12,lr}", 0xE8BD5100),
     # alignment-faulting loads (SCTLR.A = 1) whose base register is banked: the Data Abort must leave every bank intact
     ("LDR r0,[sp,#1] (aborts)", 0xE59D0001), ("LDR r0,[r8,#1] (aborts)", 0xE5980001), ("LDR r0,[lr,#2]! (aborts)", 0xE5BE0002),
+    # histories across exception entries (the next instruction of the program is injected at the vector): an aborting
+    # access without a base register field, an exception-ending instruction, a completing write-back to a banked base
+    ("LDR r0,[pc,#1] (aborts)", 0xE59F0001), ("SVC #0", 0xEF000000), ("LDR r0,[lr],#4", 0xE49E0004),
 ]
 
 
 def bank_instr(res, ci, start):
     """Banking through instructions: every program of 3 instructions over a menu of bank-sensitive ARM instructions
-    (writes to R8-R14, LDM/STM of the User bank, CPS / MSR mode switches, SPSR access, SRS, PUSH/POP) from every start
-    mode, co-simulated with the reference stepper; the whole snapshot (every bank) is compared after every step."""
+    (writes to R8-R14, LDM/STM of the User bank, CPS / MSR mode switches, SPSR access, SRS, PUSH/POP, aborting loads, SVC)
+    from every start mode, co-simulated with the reference stepper; the whole snapshot (every bank) is compared after
+    every step.  Each instruction is injected at the current PC, so a program continues at the vector after an
+    exception entry (abort inside the abort handler, SVC then abort, ...)."""
     from ..ref import model
     from ..ref.state import Unpredictable
     name, cfg = CONFIGS[ci]
@@ -249,6 +254,7 @@ def bank_instr(res, ci, start):
             if n.startswith("spsr_"):
                 base[ix[n]] = 0x10 | (k << 8)
         base[ix["sctlr"]] |= 2                                  # SCTLR.A: unaligned word accesses fault
+        base[ix["sctlr"]] &= ~(1 << 30)                         # SCTLR.TE = 0: exceptions are taken in ARM state
         base[ix["R.R2usr"]] = 0x000001D1                        # MSR CPSR_c source: FIQ mode
         base[ix["R.R4usr"]] = 0x600001D2
         base[ix["cpsr"]] = 0x1C0 | start
@@ -259,14 +265,18 @@ def bank_instr(res, ci, start):
         mem0 = env.base("svc", "ram")[1]
         for prog in itertools.product(range(len(BANK_MENU)), repeat=3):
             plan.restore((pre, mem0))
-            for k, mi in enumerate(prog):
-                machine.put_instr(cpu, 0x10800 + 4 * k, BANK_MENU[mi][1], False, 32)
             st = St(names, pre, plan.mem(), full)
             res.cases += 1
             res.add_state(hash((ci, ns, start, prog)))
             for k in range(3):
-                if st.pc != 0x10800 + 4 * k:
+                # the k-th instruction is injected wherever control is (after an exception: at the vector), on both sides
+                pc = st.pc
+                if st.thumb() or pc & 3 or not (pc < 0xFFC or 0x10000 <= pc < 0x11FFC):
                     break
+                word = BANK_MENU[prog[k]][1]
+                machine.put_instr(cpu, pc, word, False, 32)
+                for i_ in range(4):
+                    st.mem.wr(pc + i_, (word >> (8 * i_)) & 0xFF)
                 try:
                     label = model.step(st)
                 except Unpredictable:
